@@ -1,0 +1,113 @@
+//go:build verif
+
+package base
+
+// Contracts of the generated fast codec of Base / BaseResp. Comment-only file.
+//
+// Go maps are abstracted to their length by the verifier, so everything below that speaks
+// about the encoding is stated for Extra == nil or an empty Extra; FastRead is specified for
+// safety, extent and its frame for every input.
+//
+//   nz(s, w)  bytes of the buffer a string field value takes: 4 + len(s), or only the 4-byte
+//             length word when a direct writer is attached and the value is >= 4096 bytes
+//   dz(s, w)  number of direct writes it causes
+
+//@ pred nz(s, w) = (isnil(w) || len(s) < 4096) ? 4 + len(s) : 4
+//@ pred dz(s, w) = (!isnil(w) && len(s) >= 4096) ? 1 : 0
+//@ pred strOK(s) = len(s) <= 0x7fffffff
+//@ pred fieldHdr(b, off, t, id) = b[off] == t && vs.BE16(b, off+1) == id
+
+//@ func Base.BLength
+//@   arith bv
+//@   props C11, C15
+//@   nilrecv
+//@   ensures isnil(p) ==> ret == 1
+//@   ensures !isnil(p) && maplen(p.Extra) == 0 ==> ret == 22 + len(p.LogID) + len(p.Caller) + len(p.Addr) + (isnil(p.Extra) ? 0 : 9)
+//@   loop 1 invariant maplen(p.Extra) == 0 ==> off == 30 + len(p.LogID) + len(p.Caller) + len(p.Addr)
+
+//@ func Base.FastWriteNocopy
+//@   arith int
+//@   props C03, C11, C15
+//@   nilrecv
+//@   requires isnil(p) ==> len(b) >= 1
+//@   requires !isnil(p) ==> maplen(p.Extra) == 0 && strOK(p.LogID) && strOK(p.Caller) && strOK(p.Addr) && len(b) >= 22 + len(p.LogID) + len(p.Caller) + len(p.Addr) + (isnil(p.Extra) ? 0 : 9)
+//@   let o2 = 3 + nz(p.LogID, w)
+//@   let o3 = o2 + 3 + nz(p.Caller, w)
+//@   let o4 = o3 + 3 + nz(p.Addr, w)
+//@   ensures isnil(p) ==> ret == 1 && b[0] == 0
+//@   ensures !isnil(p) ==> ret == o4 + (isnil(p.Extra) ? 0 : 9) + 1 && b[ret-1] == 0
+//@   ensures !isnil(p) ==> fieldHdr(b, 0, 11, 1) && fieldHdr(b, o2, 11, 2) && fieldHdr(b, o3, 11, 3)
+//@   ensures !isnil(p) && !isnil(p.Extra) ==> fieldHdr(b, o4, 13, 6) && b[o4+3] == 11 && b[o4+4] == 11 && vs.BE32(b, o4+5) == 0
+//@   ensures !isnil(p) && isnil(w) ==> ret == 22 + len(p.LogID) + len(p.Caller) + len(p.Addr) + (isnil(p.Extra) ? 0 : 9)
+//@   ensures !isnil(p) && isnil(w) ==> vs.BE32(b, 3) == uint32(len(p.LogID)) && eqbytes(b, 7, p.LogID, 0, len(p.LogID)) && vs.BE32(b, o2+3) == uint32(len(p.Caller)) && eqbytes(b, o2+7, p.Caller, 0, len(p.Caller)) && vs.BE32(b, o3+3) == uint32(len(p.Addr)) && eqbytes(b, o3+7, p.Addr, 0, len(p.Addr))
+//@   ensures !isnil(p) && !isnil(w) ==> w.$ndirect == old(w.$ndirect) + dz(p.LogID, w) + dz(p.Caller, w) + dz(p.Addr, w)
+//@   assigns b[0:len(b)], !isnil(w) ==> w.$ndirect, !isnil(w) ==> w.$lastdirect, !isnil(w) ==> w.$lastremain
+//@   loop 1 never
+
+//@ func Base.FastWrite
+//@   arith int
+//@   props C03, C11, C15
+//@   nilrecv
+//@   requires isnil(p) ==> len(b) >= 1
+//@   requires !isnil(p) ==> maplen(p.Extra) == 0 && strOK(p.LogID) && strOK(p.Caller) && strOK(p.Addr) && len(b) >= 22 + len(p.LogID) + len(p.Caller) + len(p.Addr) + (isnil(p.Extra) ? 0 : 9)
+//@   ensures isnil(p) ==> ret == 1
+//@   ensures !isnil(p) ==> ret == 22 + len(p.LogID) + len(p.Caller) + len(p.Addr) + (isnil(p.Extra) ? 0 : 9)
+//@   assigns b[0:len(b)]
+
+// FastRead never panics, never reports more than it was given, and touches only the four fields.
+//@ func Base.FastRead
+//@   arith int
+//@   props C03, C11
+//@   requires !isnil(p)
+//@   ensures err == nil ==> 1 <= off && off <= len(b) && b[off-1] == 0
+//@   assigns p.LogID, p.Caller, p.Addr, p.Extra
+//@   loop 1 invariant 0 <= off && off <= len(b) && err == nil
+//@   loop 1 decreases len(b) - off
+//@   loop 2 invariant 0 <= off && off <= len(b) && err == nil && 0 <= i && i <= sz && len(b) - off < loopmeasure(1)
+//@   loop 2 decreases sz - i
+
+//@ func BaseResp.BLength
+//@   arith bv
+//@   props C11, C15
+//@   nilrecv
+//@   ensures isnil(p) ==> ret == 1
+//@   ensures !isnil(p) && maplen(p.Extra) == 0 ==> ret == 15 + len(p.StatusMessage) + (isnil(p.Extra) ? 0 : 9)
+//@   loop 1 invariant maplen(p.Extra) == 0 ==> off == 23 + len(p.StatusMessage)
+
+//@ func BaseResp.FastWriteNocopy
+//@   arith int
+//@   props C03, C11, C15
+//@   nilrecv
+//@   requires isnil(p) ==> len(b) >= 1
+//@   requires !isnil(p) ==> maplen(p.Extra) == 0 && strOK(p.StatusMessage) && len(b) >= 15 + len(p.StatusMessage) + (isnil(p.Extra) ? 0 : 9)
+//@   let o2 = 3 + nz(p.StatusMessage, w)
+//@   let o3 = o2 + 7
+//@   ensures isnil(p) ==> ret == 1 && b[0] == 0
+//@   ensures !isnil(p) ==> ret == o3 + (isnil(p.Extra) ? 0 : 9) + 1 && b[ret-1] == 0
+//@   ensures !isnil(p) ==> fieldHdr(b, 0, 11, 1) && fieldHdr(b, o2, 8, 2) && vs.BE32(b, o2+3) == uint32(p.StatusCode)
+//@   ensures !isnil(p) && !isnil(p.Extra) ==> fieldHdr(b, o3, 13, 3) && b[o3+3] == 11 && b[o3+4] == 11 && vs.BE32(b, o3+5) == 0
+//@   ensures !isnil(p) && isnil(w) ==> vs.BE32(b, 3) == uint32(len(p.StatusMessage)) && eqbytes(b, 7, p.StatusMessage, 0, len(p.StatusMessage))
+//@   ensures !isnil(p) && !isnil(w) ==> w.$ndirect == old(w.$ndirect) + dz(p.StatusMessage, w)
+//@   assigns b[0:len(b)], !isnil(w) ==> w.$ndirect, !isnil(w) ==> w.$lastdirect, !isnil(w) ==> w.$lastremain
+//@   loop 1 never
+
+//@ func BaseResp.FastWrite
+//@   arith int
+//@   props C03, C11, C15
+//@   nilrecv
+//@   requires isnil(p) ==> len(b) >= 1
+//@   requires !isnil(p) ==> maplen(p.Extra) == 0 && strOK(p.StatusMessage) && len(b) >= 15 + len(p.StatusMessage) + (isnil(p.Extra) ? 0 : 9)
+//@   ensures isnil(p) ==> ret == 1
+//@   ensures !isnil(p) ==> ret == 15 + len(p.StatusMessage) + (isnil(p.Extra) ? 0 : 9)
+//@   assigns b[0:len(b)]
+
+//@ func BaseResp.FastRead
+//@   arith int
+//@   props C03, C11
+//@   requires !isnil(p)
+//@   ensures err == nil ==> 1 <= off && off <= len(b) && b[off-1] == 0
+//@   assigns p.StatusMessage, p.StatusCode, p.Extra
+//@   loop 1 invariant 0 <= off && off <= len(b) && err == nil
+//@   loop 1 decreases len(b) - off
+//@   loop 2 invariant 0 <= off && off <= len(b) && err == nil && 0 <= i && i <= sz && len(b) - off < loopmeasure(1)
+//@   loop 2 decreases sz - i
